@@ -65,7 +65,7 @@ struct IoFault : Profile {
     // The first cases of every batch are directed programs, one per storage layout: create the object, close, open again,
     // read it, rewrite it, read it, close.  Every layout's create, fetch, write-back and release paths then meet every
     // fault in every batch, however small (a random program reads a chunked dataset back only now and then).
-    static const int NDIRECTED = 17;
+    static const int NDIRECTED = 18;
     static void directed(std::vector<Op> &ops, Rng &r, int t)
     {
         int64_t ds = (int64_t)(r.next() >> 16), ds2 = (int64_t)(r.next() >> 16);
@@ -106,6 +106,14 @@ struct IoFault : Profile {
             ops.push_back(mkop(0, "vsappend", {0, 25, 0, ds2}));
             ops.push_back(mkop(0, "vsread", {0}));
             ops.push_back(mkop(0, "vgread", {0}));
+        }
+        else if (t == 17) {
+            // a reader holds the file while the session's writing open swaps the stream under it
+            ops.push_back(mkop(0, "hput", {0, 0, 0, 30, ds}));
+            ops.push_back(mkop(0, "end", {}));
+            ops.push_back(mkop(0, "hupgrade", {}));
+            ops.push_back(mkop(0, "hput", {0, 1, 1, 20, ds2}));
+            ops.push_back(mkop(0, "hread", {0, 0, 0}));
         }
         else if (t >= 14) {
             // several dataset ids are still open when the file is closed: SDend has to finish each of them and report the
